@@ -29,6 +29,7 @@ def convOk (op : String) (args : List String) : Option String :=
   | "conv.gen", [_, _] => some "ok"
   | "conv.recipients", [_] => some "ok"
   | "conv.keyset", [_] => some "ok"
+  | "conv.bigkeyset", [_] => some "ok"
   | "conv.keyset", [_, _, _] => some "ok"
   | _, _ => none
 
